@@ -71,6 +71,8 @@ ASSUMPTIONS = ["bounded-progress restatement: N and tol per configuration come f
                "a slowdown smaller than the margin is invisible; one larger than it is reported although the filter may converge later"]
 
 
+UNITS_ACC = [9.81, 9.81, 1.0, 981.0]
+UNITS_MAG = [50.0, 50.0, 5.0e4, 0.5, 5.0e-5, 1.0]
 GYRO_MODES = ["gaussian", "one-axis", "two-axes", "quantised", "gaussian"]
 
 
@@ -168,13 +170,18 @@ def check(case, ctx):
         ax /= np.linalg.norm(ax)
     d = rq.axang2q(ax, e0)
     q0 = rq.qnormalize(rq.qmul(d, qt) if cfg.conv == "T" else rq.qmul(qt, d))
-    acc, mag = cfg.measurements(qt, g_ref, m_ref)
+    # sensor units: m/s^2, g or milli-g for the accelerometer; micro-tesla, nano-tesla, gauss, tesla or a unit vector for the magnetometer
+    # (the readings are exact images of the reference *directions*; which unit the sensor reports in must not matter)
+    ua, um = UNITS_ACC[int(p["seed"]) % len(UNITS_ACC)], UNITS_MAG[(int(p["seed"]) // 7) % len(UNITS_MAG)]
+    if "adaptive" in cfg.name:
+        ua = 9.81       # AQUA's adaptive gain is a function of | |acc| - g | by design: its accelerometer must report in m/s^2
+    acc, mag = cfg.measurements(qt, g_ref, m_ref, sa=ua, sm=um)
     n_tot = int(1.5 * N) + 1
     G_ = gyro_noise(rng, n_tot, p["gyro_sigma"], p.get("gyro_mode", "gaussian"))
     A = np.tile(acc, (n_tot, 1))
     M = None if mag is None else np.tile(mag, (n_tot, 1))
     if cfg.name == "FKF" or (not cfg.streams and not cfg.name.startswith("Complementary")):
-        a0, m0 = cfg.measurements(q0, g_ref, m_ref)
+        a0, m0 = cfg.measurements(q0, g_ref, m_ref, sa=ua, sm=um)
         A[0] = a0
         if M is not None:
             M[0] = m0
@@ -206,7 +213,7 @@ def check(case, ctx):
     idx = _idx(n_tot, N)
     e_start = err[0]
     tail = err[idx >= N]
-    detail = {"N": N, "tol_deg": np.degrees(tol), "e0_deg": p["e0_deg"], "err_deg@[0,N/4,N/2,N,1.25N,1.5N]":
+    detail = {"N": N, "tol_deg": np.degrees(tol), "e0_deg": p["e0_deg"], "units(acc, mag)": [ua, um], "err_deg@[0,N/4,N/2,N,1.25N,1.5N]":
               [round(float(np.degrees(err[np.searchsorted(idx, k)])), 5) for k in (0, N // 4, N // 2, N, int(1.25 * N), n_tot - 1)], "dip_deg": p["dip_deg"]}
     if cfg.name == "FKF" and abs(p["dip_deg"]) > 40.0:
         # FKF weights the heading by the horizontal field only: its convergence time grows without practical bound for steep dips
